@@ -10,7 +10,7 @@ import json
 import os
 import random
 
-from .. import core, tlc
+from .. import core, tlc, graph_cover, tlaval
 
 SIZES = [1, 2, 3, 5, 17, 63, 64, 65, 100, 200, 255, 256, 257, 300, 1000, 4000, 4095, 4096, 4097, 5000, 9000]
 
@@ -258,6 +258,126 @@ def run_random(res, work, tier, seed):
         res.data["witness"][p] = {"count": len(nontrivial), "rule": rule}
     res.data["samples"]["*"] = [{"cfg": runs[0]["cfg"], "ops": runs[0]["ops"][:20]},
                                 {"cfg": runs[-1]["cfg"], "ops": runs[-1]["ops"]}]
+
+
+# ---------------------------------------------------------------- design level (I-spec) + spec -> impl replay
+SCALE = {1: [1, 3, 64], 2: [65, 200, 256], 3: [257, 300], 5: [4097, 5000]}
+
+
+def _mc_design(res, work, objs, budget, dump=None, bug=False):
+    consts = ("SMALL = 1\n  OPP = 2\n  ChunkSizes <- CS_tiny\n  PushSizes = {1, 2, 3, 5}\n  MaxObjs = %d\n  Budget = %d\n"
+              "  BugAnchor = %s\n" % (objs, budget, "TRUE" if bug else "FALSE"))
+    cfg = os.path.join(work, "OwningIovecMC_%d_%d%s.cfg" % (objs, budget, "_bug" if bug else ""))
+    with open(cfg, "w") as f:
+        f.write("SPECIFICATION Spec\nCONSTANTS\n  %sINVARIANTS Refines StableOK SlicesLive NoOverlap AnchorSum BackrefTargets "
+                "NoStuckAnchor NoLeakAtEnd\nCHECK_DEADLOCK FALSE\n" % consts)
+    r = tlc.run_tlc("OwningIovecMC", cfg, os.path.join(work, "mc"), workers=12, timeout=6000, dump_dot=dump, xmx="12g")
+    return r, consts
+
+
+def _label_ops(labels, rng):
+    """labels of one path of the OwningIovecMC graph -> harness operations (sizes scaled to the real thresholds)"""
+    ops = [{"ev": "new", "o": 1}]
+    pos = {1: 0, 2: 0}
+    for lab in labels:
+        lab = tlaval.unescape_dot(lab)
+        name, args = lab.split("(", 1)
+        args = args[:-1]
+        if name == "DoBackfillId":
+            hid = int(args)
+            ops.append({"ev": "backfill", "o": 1, "id": hid, "v": 252 + hid % 4, "any_obj": True})
+            continue
+        if name == "DoReleaseId":
+            ops.append({"ev": "held_op", "h": int(args), "what": "release", "o": 0})
+            continue
+        a = tlaval.parse("<<" + args + ">>")
+        o = a[0]
+        if name in ("DoPush", "DoPushAnchored", "DoHold"):
+            n = rng.choice(SCALE[a[1]])
+            d = [0, pos.get(o, 0) % 251, n]
+            if name == "DoPush":
+                pos[o] = pos.get(o, 0) + n
+                ops.append({"ev": "push", "o": o, "m": a[2], "d": d})
+            elif name == "DoPushAnchored":
+                pos[o] = pos.get(o, 0) + n
+                ops.append({"ev": "push_anchored", "o": o, "d": d})
+            else:
+                ops.append({"ev": "hold", "o": o, "h": sum(1 for x in ops if x["ev"] == "hold") + 1, "d": [0, rng.randrange(251), n]})
+        elif name == "DoRegister":
+            ops.append({"ev": "register", "o": o, "n": a[1], "id": sum(1 for x in ops if x["ev"] == "register") + 1})
+            pos[o] = pos.get(o, 0) + a[1]
+        elif name == "DoConsume":
+            ops.append({"ev": "consume", "o": o, "n": 1000 if a[1] == 9 else a[1]})
+        elif name == "DoAdvance":
+            ops.append({"ev": rng.choice(["advance", "read"]), "o": o, "n": {1: 1, 2: 100, 9: 10 ** 7}[a[1]]})
+        elif name == "DoClear":
+            ops.append({"ev": "clear", "o": o})
+        elif name == "DoFlush":
+            ops.append({"ev": "flush", "o": o})
+        elif name == "DoEnsure":
+            ops.append({"ev": "ensure", "o": o, "n": 300})
+        elif name == "DoDrop":
+            ops.append({"ev": "drop", "o": o})
+        elif name == "DoClone":
+            ops.append({"ev": "clone", "o": o, "to": a[1]})
+            pos[a[1]] = pos.get(o, 0)
+        elif name == "DoTake":
+            ops.append({"ev": "take", "o": o, "to": a[1]})
+            pos[a[1]] = pos.get(o, 0)
+            pos[o] = 0
+        else:
+            raise core.ToolError("unknown OwningIovecMC action label %r" % lab)
+    # epilogue: fill what is pending, consume everything, drop everything (harness skips what does not exist)
+    for x in [x for x in ops if x["ev"] == "register"]:
+        ops.append({"ev": "backfill", "o": 1, "id": x["id"], "v": 253, "any_obj": True})
+    for o in (1, 2):
+        ops.append({"ev": "read", "o": o, "n": 10 ** 7})
+    for x in [x for x in ops if x["ev"] == "hold"]:
+        ops.append({"ev": "held_op", "h": x["h"], "what": "release", "o": 0})
+    for o in (2, 1):
+        ops.append({"ev": "drop", "o": o})
+    return ops
+
+
+def run_design(res, work, tier, seed):
+    os.makedirs(work, exist_ok=True)
+    rng = random.Random(seed * 7919 + 33)
+    plans = [(1, 4), (2, 4)] if tier == "quick" else [(1, 6), (2, 5)]
+    for objs, budget in plans:
+        r, consts = _mc_design(res, work, objs, budget)
+        if r["violated"]:
+            raise core.ToolError("design check OwningIovecMC violated %s (specification error):\n%s" % (r["violated"], r["out"][-3000:]))
+        res.add_mc("OwningIovecMC: transcribed OwningIovec/GlobalDeque/ByteArena refines the byte pipe; slices live, anchors "
+                   "sum up, backrefs on target, no stuck anchor (%d object(s), %d operations)" % (objs, budget), r, consts.replace("\n", ";"))
+    rb, _ = _mc_design(res, work, 1, 4, bug=True)
+    if rb["violated"] != "SlicesLive":
+        raise core.ToolError("OwningIovecMC with BugAnchor=TRUE should violate SlicesLive, got %r" % rb["violated"])
+    res.data["notes"].append("OwningIovecMC with BugAnchor=TRUE (consume drops every zero-count anchor) violates SlicesLive as expected")
+    # spec -> impl: every edge of the (2 objects, 3 or 4 operations) graph on the real OwningIovec
+    dot = os.path.join(work, "oi_graph")
+    gb = 3 if tier == "quick" else 4
+    r, _ = _mc_design(res, work, 2, gb, dump=dot)
+    g = graph_cover.parse_dot(dot + ".dot")
+    os.remove(dot + ".dot")
+    paths = graph_cover.edge_cover(g, max_run=12)
+    res.data["edge_cover"].append({"graph": "OwningIovecMC 2 objects budget %d" % gb, "edges": len(g.edges), "paths": len(paths),
+                                   "ops": sum(len(p) for p in paths),
+                                   "note": "tiny sizes 1/2/3/5 are replayed as real sizes around 64 / 256 / 4096"})
+    runs = []
+    for i, p in enumerate(paths):
+        runs.append({"run": i + 1, "cfg": {"profile": "design"}, "ops": _label_ops([g.edges[e][2] for e in p], rng)})
+    B = 4000
+    for i in range(0, len(runs), B):
+        batch = runs[i:i + B]
+        trace = core.drive("pipe", batch, work, "pipe_design%d" % i)
+        tv = tlc.validate_trace("PipeTrace", "PipeTrace.cfg", trace, os.path.join(work, "tv"), timeout=3000, xmx="10g")
+        res.add_tv(tv, {r["run"]: r for r in batch}, "pipe", "edge cover of the OwningIovecMC graph", crash_props=("C05",))
+        os.remove(trace)
+    rule = ("distinct operation histories replayed from the OwningIovecMC state graph (every edge covered; %d paths) on the real "
+            "OwningIovec, sizes scaled to the real thresholds" % len(runs))
+    for p in ("C03", "C04", "C05", "C20", "C10"):
+        res.data["witness"][p] = {"count": len(runs), "rule": rule}
+    res.data["samples"]["*"] = [{"ops": runs[len(runs) // 2]["ops"]}]
 
 
 def replay(rep, work):
